@@ -97,4 +97,17 @@ structure AddrV where
   anycast : Option AnycastV
   deriving Repr
 
+/-- `ExternalAddress(external_address, len)` -/
+structure ExtAddrV where
+  external_address : Int
+  len : Nat
+  deriving Repr
+
+/-- what `load_address` / `preload_address` return: `None`, an `ExternalAddress`, an `Address` -/
+inductive AddrR where
+  | none
+  | ext (a : ExtAddrV)
+  | std (a : AddrV)
+  deriving Repr
+
 end TonVerif.Py
